@@ -2,6 +2,7 @@ import BstreamVerif.Model.Forkable
 import BstreamVerif.Model.HubBurst
 import BstreamVerif.Spec.Consumer
 import BstreamVerif.Drv.Util
+import BstreamVerif.Drv.HubMon
 /- Line protocol for suite `forkable`:
    case n forkable <none|ex:<id>:<num>|in:<id>:<num>> <hold> <kept> <alltrig> <filtermask> <fsb>
    op blk <id> <parent|-> <num> <lib> [fail <k>]
@@ -91,6 +92,7 @@ def burstOp (s : FState) (ws : List String) : Option (List String) :=
     | _, _ => none
   | ["op", "snapshot"] =>
     -- canonical retained segment from the head, and the hub's LIB
+    if (lowestBlockNum s).isNone then some ["panic", "lowest panic"] else
     some [ match headSegment s with
            | some (_, seg) => "canon " ++ (if seg.isEmpty then "-" else ",".intercalate (seg.map (fun e => refTok e.blk.ref)))
            | none => "canon none",
@@ -211,7 +213,10 @@ def handle (hdr : List String) (body : List (List String)) : List String :=
     let fails := BstreamVerif.Consumer.monitor cfg (parseImpl body)
     let twinFail := if body.any (· == ["impl", "twin", "DIFF"]) && (BstreamVerif.Consumer.appliesTo cfg (parseImpl body)).contains "C03"
       then ["monitor C03 FAIL c03-output-depends-on-retention-or-refeeds :: the implementation's trace changed under another kept-final-blocks value or with re-fed blocks inserted"] else []
-    model ++ fails.map (fun (p, why) => s!"monitor {p} FAIL {p.toLower}-{slug why} :: {why}") ++ twinFail ++
+    -- hub monitors apply to histories with well-formed LIB declarations (the quantifier of C02/C03, inherited by C05/C09)
+    let hubFails := if hdr.getD 1 "" == "hubburst" && (BstreamVerif.Consumer.appliesTo cfg (parseImpl body)).contains "C02"
+      then BstreamVerif.Drv.HubMon.run body else []
+    model ++ (fails ++ hubFails).map (fun (p, why) => s!"monitor {p} FAIL {p.toLower}-{slug why} :: {why}") ++ twinFail ++
       ["note applies " ++ ",".intercalate (BstreamVerif.Consumer.appliesTo cfg (parseImpl body))]
 
 end BstreamVerif.Drv.ForkableDrv
